@@ -333,8 +333,27 @@ func emphasisDelimiterLength(inline *commonmark.Inline) int {
 func copyLines(fw *formatWriter, source []byte, inline *commonmark.Inline) {
 	span := inline.Span()
 	pos := span.Start
-	atLineStart := func() bool {
-		return pos > span.Start && source[pos-1] == '\n'
+	// gap writes the source between two pieces of content.
+	// Whatever follows a line ending in it
+	// are the container markers and indentation of the next source line,
+	// and, if no content comes next, a closing delimiter.
+	gap := func(b []byte, contentFollows bool) {
+		if pos > span.Start && source[pos-1] == '\n' {
+			// Already at the start of a source line.
+			if !contentFollows {
+				fw.b(bytes.TrimLeft(b, " \t>"))
+			}
+			return
+		}
+		i := bytes.LastIndexByte(b, '\n')
+		if i < 0 {
+			fw.b(b)
+			return
+		}
+		fw.b(b[:i+1])
+		if !contentFollows {
+			fw.b(bytes.TrimLeft(b[i+1:], " \t>"))
+		}
 	}
 	for i, n := 0, inline.ChildCount(); i < n; i++ {
 		// The children are the content of each line.
@@ -342,18 +361,11 @@ func copyLines(fw *formatWriter, source []byte, inline *commonmark.Inline) {
 		if !childSpan.IsValid() || childSpan.Start < pos {
 			continue
 		}
-		if !atLineStart() {
-			fw.b(source[pos:childSpan.Start])
-		}
+		gap(source[pos:childSpan.Start], true)
 		fw.b(source[childSpan.Start:childSpan.End])
 		pos = childSpan.End
 	}
-	rest := source[pos:span.End]
-	if atLineStart() {
-		// A closing delimiter on a line of its own.
-		rest = bytes.TrimLeft(rest, " \t>")
-	}
-	fw.b(rest)
+	gap(source[pos:span.End], false)
 }
 
 func postInline(fw *formatWriter, source []byte, cursor *commonmark.Cursor) {
